@@ -137,6 +137,15 @@ def I_(*ms):
     return t
 
 
+def AND_(a, b):
+    """the intersection written with the `&` operator (MetaMC.__and__ / __rand__ / DependentType.__and__): by the documented
+    meaning it is the intersection of exactly its two operands, whatever they are"""
+    t = a & b
+    SPEC[id(t)] = ("Intersection", (a, b))
+    _KEEP.append(t)
+    return t
+
+
 def X_(b):
     t = Exactly[b]
     SPEC[id(t)] = ("Exactly", (b,))
@@ -171,6 +180,8 @@ def terms(depth=1):
     K["Class"] += [NodeA, NodeB, Node0]
     K["Union"] += [U_(B, A), U_(A, B), U_(D, B, E), N(NodeA | NodeB), N(NodeB | Node0 | NodeA), N(NodeA | E)]
     K["Inter"] += [I_(A, B), I_(B, A), I_(Sized, tuple, A)]
+    # `&` with an ovld type on either side: a union / protocol / class-check operand stays ONE member
+    K["Inter"] += [AND_(N(A | E), C), AND_(C, N(A | E)), AND_(HasMethod["foo"], N(B | E)), AND_(N(A | E), N(C | E)), AND_(I_(A, E), C)]
     K["FuncDep"] += [Shape[2, typing.Any], Shape[typing.Any, 2], Shape[2, 2], Shape[typing.Any, typing.Any], Shape[2, 3, typing.Any], Shape[typing.Any, typing.Any, 5], Shape[2, typing.Any, typing.Any]]
     if depth >= 2:
         K["Union"] += [U_(I_(A, E), int), U_(X_(A), E), U_(N(Literal[1]), str), U_(list[A], E)]
